@@ -107,7 +107,7 @@ func spinUntil(t time.Time) {
 	}
 }
 
-var stressModes = []string{"timer", "run-early", "run-at", "multi-run-early", "multi-run-at", "cancel-early", "cancel-at", "ctx-early", "ctx-at", "cancel-vs-run", "run-at-and-cancel-at"}
+var stressModes = []string{"timer", "run-early", "run-early-ifexists", "run-at-ifexists", "run-at", "multi-run-early", "multi-run-at", "cancel-early", "cancel-at", "ctx-early", "ctx-at", "cancel-vs-run", "run-at-and-cancel-at"}
 
 var forcedModes = []string{"F1-run-at-timer", "F2-run-at-timer-unclaimed", "F3-cancel-at-timer", "F4-run-and-cancel-in-run-branch", "F5-timer-during-runjob", "F7-timer-during-cancel", "F8-double-run-at-timer"}
 
@@ -159,6 +159,13 @@ func launch(s *advanced.Service, r *rand.Rand, name, mode string, wg *sync.WaitG
 	case "run-early":
 		sched(far)
 		bg(func() { doRun(s, js) })
+	case "run-early-ifexists":
+		sched(far)
+		bg(func() { s.RunJobIfExists(context.Background(), js.name); js.runNil.Add(1) }) // the job exists, so this must start it
+	case "run-at-ifexists":
+		sched(near)
+		at := js.at.Add(jitter)
+		bg(func() { spinUntil(at); s.RunJobIfExists(context.Background(), js.name) })
 	case "run-at":
 		sched(near)
 		at := js.at.Add(jitter)
@@ -319,7 +326,10 @@ func judge(c *harness.Ctx, s *advanced.Service, js *jobState, id string) {
 	if js.ctxClearly && runs > 0 {
 		c.Violate("ran-after-context-cancel:"+js.mode, "job whose context was cancelled an hour before its time still ran", id, detail)
 	}
-	// A finished job's name can be scheduled again.
+	// A finished job is no longer listed, and its name can be scheduled again.
+	if s.JobExists(context.Background(), js.name) {
+		c.Violate("finished-job-still-listed:"+js.mode, "a job whose goroutine has finished is still reported by JobExists", id, detail)
+	}
 	err := s.ScheduleJob(context.Background(), "verif", js.name, time.Now().Add(far), func(context.Context) {})
 	if err != nil {
 		c.Violate("name-not-reusable:"+js.mode, "name of a finished job cannot be scheduled again: "+err.Error(), id, detail)
@@ -514,6 +524,8 @@ func tableModel() porcupine.Model {
 					return !present, present
 				}
 				return present && out == "nil", false
+			case "runif": // RunJobIfExists reports nothing: it either took the entry or found none
+				return true, false
 			case "exists":
 				return (out == "true") == present, present
 			case "claim": // the timer (or context) branch deletes the name from the table
@@ -582,8 +594,15 @@ func tableLin(c *harness.Ctx, s *advanced.Service) {
 								}
 								err := s.ScheduleJob(context.Background(), "verif", name, time.Now().Add(d), fn)
 								rec(g, "sched", call, errName(err))
-							case 2, 3:
+							case 2:
 								rec(g, "run", call, errName(s.RunJob(context.Background(), name)))
+							case 3:
+								if rr.Intn(2) == 0 {
+									s.RunJobIfExists(context.Background(), name)
+									rec(g, "runif", call, "-")
+								} else {
+									rec(g, "run", call, errName(s.RunJob(context.Background(), name)))
+								}
 							case 4:
 								rec(g, "cancel", call, errName(s.CancelJob(context.Background(), name)))
 							default:
